@@ -55,6 +55,9 @@ CHECKS = {
  "C10": dict(engine="mon-daemon", cat="exploration", tech="offline checker over the daemon's output file after a marker-session barrier; in-process logical-clock order check under the race detector",
    text="Concurrent writers on both FIFOs (window 0..unbounded), 50-500 sessions, events up to 64 KiB; every output line must decode as exactly one JSON audit event with mandatory fields, no event key twice, each UserAction after the UserLogin carrying its identity. In-process: shared writer over the recorder, login line and LOGIN record released at the same instant, UserLogin write returns before any UserAction write with its identity starts. Thorough adds the -race daemon.",
    note="O_APPEND single-write atomicity is an observed OS property.", ref="4 C10"),
+ "C03": dict(engine="mon-sched", cat="exploration", tech="controlled-schedule execution of the real code at hooked lock sites (exhaustive DFS re-execution for small programs, seeded random/priority schedules for larger ones) with a relative-atomicity oracle; Go race detector on perturbed free-running executions, Auditd.Read wiring and the -race daemon",
+   text="Nine small concurrent programs on one tracker are explored exhaustively at lock-acquisition granularity: the emitted events must equal what some sequential merge of the same operations produces when run against the same code, and no schedule may deadlock. Larger programs run under seeded random and priority schedules. Under -race the same programs run free with delays injected at the lock sites, Auditd.Read gets both halves of a session at the same instant, and the -race daemon is driven with concurrent writers; any race report is a violation.",
+   note="Schedule points are the hooked lock sites only; exhaustive at that granularity, sound for data-race-free code.", ref="4 C03, 3.1"),
 }
 
 NOT_YET = {
